@@ -2,7 +2,7 @@
 //! by a two-node scenario, over a recording in-memory `KVStoreSync`; crash-recovery at every store
 //! operation boundary; and the open hypothesis H1 (asynchronous persister, out-of-order durability).
 //!
-//! usage: h_mup sync <seed> <maximum_pending_updates> <n_payments> <max_crash_points>
+//! usage: h_mup sync <seed> <maximum_pending_updates> <n_payments> <max_crash_points> [<n_fault_scripts>]
 //!        h_mup h1 <seed>
 //! All result lines start with "R " (the test logger floods stdout).
 //!   R calls <abstract persister calls>        N:<id>  U:<update_id|->:<monitor_id>  C:<lazy 0|1>
@@ -38,7 +38,7 @@ type Key = (String, String, String);
 enum Entry {
 	Write(Key, Vec<u8>),
 	Remove(Key, bool),
-	CallBegin(String),
+	CallBegin(String, Option<Vec<u8>>),
 	CallEnd { mon_id: u64, mon_bytes: Vec<u8>, ok: bool },
 }
 
@@ -106,7 +106,7 @@ impl<'a> Persist<TestChannelSigner> for RecPersist<'a> {
 	fn persist_new_channel(
 		&self, name: MonitorName, monitor: &ChannelMonitor<TestChannelSigner>,
 	) -> ChannelMonitorUpdateStatus {
-		self.rec.log.lock().unwrap().push(Entry::CallBegin(format!("N:{}", monitor.get_latest_update_id())));
+		self.rec.log.lock().unwrap().push(Entry::CallBegin(format!("N:{}", monitor.get_latest_update_id()), None));
 		let r = self.inner.persist_new_channel(name, monitor);
 		self.rec.log.lock().unwrap().push(Entry::CallEnd {
 			mon_id: monitor.get_latest_update_id(),
@@ -123,7 +123,7 @@ impl<'a> Persist<TestChannelSigner> for RecPersist<'a> {
 			Some(u) => format!("{}", u.update_id),
 			None => "-".to_string(),
 		};
-		self.rec.log.lock().unwrap().push(Entry::CallBegin(format!("U:{}:{}", u, monitor.get_latest_update_id())));
+		self.rec.log.lock().unwrap().push(Entry::CallBegin(format!("U:{}:{}", u, monitor.get_latest_update_id()), update.map(|x| x.encode())));
 		let r = self.inner.update_persisted_channel(name, update, monitor);
 		self.rec.log.lock().unwrap().push(Entry::CallEnd {
 			mon_id: monitor.get_latest_update_id(),
@@ -133,7 +133,7 @@ impl<'a> Persist<TestChannelSigner> for RecPersist<'a> {
 		r
 	}
 	fn archive_persisted_channel(&self, name: MonitorName) {
-		self.rec.log.lock().unwrap().push(Entry::CallBegin("A".to_string()));
+		self.rec.log.lock().unwrap().push(Entry::CallBegin("A".to_string(), None));
 		<Mup<'a> as Persist<TestChannelSigner>>::archive_persisted_channel(&self.inner, name);
 		self.rec.log.lock().unwrap().push(Entry::CallEnd { mon_id: 0, mon_bytes: Vec::new(), ok: true });
 	}
@@ -176,7 +176,7 @@ fn panic_msg(e: Box<dyn std::any::Any + Send>) -> String {
 	}
 }
 
-fn run_sync(seed: u64, mp: u64, n_pay: usize, max_crash: usize) {
+fn run_sync(seed: u64, mp: u64, n_pay: usize, max_crash: usize, n_faults: usize) {
 	let mut rng = Rng(seed ^ (mp.wrapping_mul(0x9E37)));
 	let rec = Arc::new(Rec::default());
 	let chanmon_cfgs = create_chanmon_cfgs(2);
@@ -235,7 +235,7 @@ fn run_sync(seed: u64, mp: u64, n_pay: usize, max_crash: usize) {
 				},
 				8 => {
 					let lazy = rng.below(2) == 0;
-					persister.rec.log.lock().unwrap().push(Entry::CallBegin(format!("C:{}", if lazy { 1 } else { 0 })));
+					persister.rec.log.lock().unwrap().push(Entry::CallBegin(format!("C:{}", if lazy { 1 } else { 0 }), None));
 					persister.inner.cleanup_stale_updates(lazy).unwrap();
 					persister.rec.log.lock().unwrap().push(Entry::CallEnd { mon_id: u64::MAX, mon_bytes: Vec::new(), ok: true });
 				},
@@ -263,7 +263,7 @@ fn run_sync(seed: u64, mp: u64, n_pay: usize, max_crash: usize) {
 	let mut in_call = false;
 	for e in log.iter() {
 		match e {
-			Entry::CallBegin(s) => {
+			Entry::CallBegin(s, _) => {
 				calls.push(s.clone());
 				ops_by_call.push(Vec::new());
 				in_call = true;
@@ -287,9 +287,13 @@ fn run_sync(seed: u64, mp: u64, n_pay: usize, max_crash: usize) {
 	let mut call_end: Vec<(u64, Vec<u8>, String)> = Vec::new();
 	let mut cur_call = 0usize;
 	let mut names: Vec<String> = Vec::new();
+	let mut upd_bytes: Vec<Option<Vec<u8>>> = Vec::new();
 	for e in log.iter() {
 		match e {
-			Entry::CallBegin(s) => names.push(s.clone()),
+			Entry::CallBegin(s, u) => {
+				names.push(s.clone());
+				upd_bytes.push(u.clone());
+			},
 			Entry::CallEnd { mon_id, mon_bytes, .. } => {
 				call_end.push((*mon_id, mon_bytes.clone(), names[cur_call].clone()));
 				cur_call += 1;
@@ -421,6 +425,273 @@ fn run_sync(seed: u64, mp: u64, n_pay: usize, max_crash: usize) {
 		"R summary mp={} calls={} ops={} stray_ops={} crash_points={} recovered_equal={} recovered_other_tip={} before_first_persist={} violations={}",
 		mp, calls.len(), n, stray, points.len(), n_ok, n_tip, n_none, n_viol
 	);
+	if n_faults > 0 {
+		replay_faults(seed, mp, n_faults, &call_end, &upd_bytes, &mon_key, &chanmon_cfgs[0]);
+	}
+}
+
+/// Store whose operations fail at scripted indices (every read/list/write/remove counts).
+struct FaultStore {
+	map: Mutex<HashMap<Key, Vec<u8>>>,
+	n: Mutex<usize>,
+	fail: std::collections::HashSet<usize>,
+	attempts: Mutex<Vec<(usize, String, bool)>>, // (op index, description, ok) ; only of the current call
+	applied: Mutex<Vec<Entry>>,
+	stored_id: Mutex<Option<u64>>,
+	needed_removed: Mutex<Vec<String>>,
+	mon_key: String,
+	keys: *const test_utils::TestKeysInterface,
+}
+unsafe impl Sync for FaultStore {}
+impl FaultStore {
+	fn tick(&self, d: String) -> (usize, bool) {
+		let mut n = self.n.lock().unwrap();
+		let i = *n;
+		*n += 1;
+		let ok = !self.fail.contains(&i);
+		self.attempts.lock().unwrap().push((i, d, ok));
+		(i, ok)
+	}
+}
+impl KVStoreSync for FaultStore {
+	fn read(&self, p: &str, s: &str, k: &str) -> Result<Vec<u8>, io::Error> {
+		let (_, ok) = self.tick("G".to_string());
+		if !ok {
+			return Err(io::Error::new(io::ErrorKind::Other, "scripted failure"));
+		}
+		match self.map.lock().unwrap().get(&key(p, s, k)) {
+			Some(v) => Ok(v.clone()),
+			None => Err(io::Error::new(io::ErrorKind::NotFound, "not found")),
+		}
+	}
+	fn write(&self, p: &str, s: &str, k: &str, buf: Vec<u8>) -> Result<(), io::Error> {
+		let e = Entry::Write(key(p, s, k), buf.clone());
+		let (_, ok) = self.tick(op_str(&e, &self.mon_key).unwrap());
+		if !ok {
+			return Err(io::Error::new(io::ErrorKind::Other, "scripted failure"));
+		}
+		if p == CHANNEL_MONITOR_PERSISTENCE_PRIMARY_NAMESPACE && k == self.mon_key {
+			let keys = unsafe { &*self.keys };
+			*self.stored_id.lock().unwrap() = read_monitor_sentinel(&buf, keys).map(|(_, m)| m.get_latest_update_id());
+		}
+		self.applied.lock().unwrap().push(e);
+		self.map.lock().unwrap().insert(key(p, s, k), buf);
+		Ok(())
+	}
+	fn remove(&self, p: &str, s: &str, k: &str, lazy: bool) -> Result<(), io::Error> {
+		let e = Entry::Remove(key(p, s, k), lazy);
+		let (_, ok) = self.tick(op_str(&e, &self.mon_key).unwrap());
+		if !ok {
+			return Err(io::Error::new(io::ErrorKind::Other, "scripted failure"));
+		}
+		if p == CHANNEL_MONITOR_UPDATE_PERSISTENCE_PRIMARY_NAMESPACE && s == self.mon_key {
+			if let Ok(id) = k.parse::<u64>() {
+				let present = self.map.lock().unwrap().contains_key(&key(p, s, k));
+				let stored = self.stored_id.lock().unwrap().unwrap_or(0);
+				if present && id > stored {
+					self.needed_removed.lock().unwrap().push(format!("U{}>M{}", id, stored));
+				}
+			}
+		}
+		self.applied.lock().unwrap().push(e);
+		self.map.lock().unwrap().remove(&key(p, s, k));
+		Ok(())
+	}
+	fn list(&self, p: &str, s: &str) -> Result<Vec<String>, io::Error> {
+		let (_, ok) = self.tick("L".to_string());
+		if !ok {
+			return Err(io::Error::new(io::ErrorKind::Other, "scripted failure"));
+		}
+		let m = self.map.lock().unwrap();
+		Ok(m.keys().filter(|(a, b, _)| a == p && b == s).map(|(_, _, c)| c.clone()).collect())
+	}
+}
+
+/// Replays the recorded persister calls (real monitors and updates) on a fresh real
+/// `MonitorUpdatingPersister` over a store that fails at scripted operation indices. A call that does
+/// not return `Completed` ends the history (the node halts on `UnrecoverableError`); then recovery must
+/// return a monitor at least as recent as the last update reported persisted.
+fn replay_faults(
+	seed: u64, mp: u64, n_scripts: usize, call_end: &Vec<(u64, Vec<u8>, String)>, upd_bytes: &Vec<Option<Vec<u8>>>,
+	mon_key: &str, cfg: &TestChanMonCfg,
+) {
+	use lightning::util::ser::Readable;
+	let keys = &cfg.keys_manager;
+	let mut rng = Rng(seed ^ 0xfa17 ^ mp);
+	// fault-free pass to learn the operation indices
+	let mut scripts: Vec<Vec<usize>> = vec![vec![]];
+	let mut first = true;
+	let mut si = 0usize;
+	while si < scripts.len() {
+		let script = scripts[si].clone();
+		let st = FaultStore {
+			map: Mutex::new(HashMap::new()),
+			n: Mutex::new(0),
+			fail: script.iter().cloned().collect(),
+			attempts: Mutex::new(Vec::new()),
+			applied: Mutex::new(Vec::new()),
+			stored_id: Mutex::new(None),
+			needed_removed: Mutex::new(Vec::new()),
+			mon_key: mon_key.to_string(),
+			keys: keys as *const _,
+		};
+		let p = MonitorUpdatingPersister::new(&st, &cfg.logger, mp, keys, keys, &cfg.tx_broadcaster, &cfg.fee_estimator);
+		let mut per_call: Vec<String> = Vec::new();
+		let mut all_attempts: Vec<(usize, String)> = Vec::new();
+		let mut reported: Option<u64> = None;
+		let mut stop: Option<usize> = None;
+		let mut applied_lazy_marks: Vec<bool> = Vec::new();
+		for (ci, (mon_id, mon_b, name)) in call_end.iter().enumerate() {
+			st.attempts.lock().unwrap().clear();
+			let status_ok;
+			if name.starts_with('C') {
+				let lazy = name.ends_with('1');
+				status_ok = p.cleanup_stale_updates(lazy).is_ok();
+			} else if name.starts_with('A') {
+				continue;
+			} else {
+				let (_, mon) = match read_monitor(mon_b, keys) {
+					Some(x) => x,
+					None => {
+						println!("R fault mp={} sid={} cannot-deserialize-monitor call={}", mp, si, ci);
+						return;
+					},
+				};
+				let mname = mon.persistence_key();
+				let status = if name.starts_with('N') {
+					Persist::<TestChannelSigner>::persist_new_channel(&p, mname, &mon)
+				} else {
+					let upd = upd_bytes[ci].as_ref().map(|b| ChannelMonitorUpdate::read(&mut &b[..]).unwrap());
+					Persist::<TestChannelSigner>::update_persisted_channel(&p, mname, upd.as_ref(), &mon)
+				};
+				status_ok = status == ChannelMonitorUpdateStatus::Completed;
+				if status_ok {
+					reported = Some(*mon_id);
+				}
+			}
+			let at = st.attempts.lock().unwrap().clone();
+			per_call.push(at.iter().map(|(_, d, ok)| format!("{}{}", d, if *ok { "+" } else { "-" })).collect::<Vec<_>>().join(" "));
+			for (i, d, _) in at.iter() {
+				all_attempts.push((*i, d.clone()));
+			}
+			let _ = &mut applied_lazy_marks;
+			if !status_ok && !name.starts_with('C') {
+				stop = Some(ci);
+				break;
+			}
+		}
+		if first {
+			first = false;
+			// scripts: every monitor/update write, a sample of removes, every list/read, some multi-faults
+			let writes: Vec<usize> = all_attempts.iter().filter(|(_, d)| d.starts_with("W:")).map(|(i, _)| *i).collect();
+			let removes: Vec<usize> = all_attempts.iter().filter(|(_, d)| d.starts_with("R:")).map(|(i, _)| *i).collect();
+			let reads: Vec<usize> = all_attempts.iter().filter(|(_, d)| d == "G" || d == "L").map(|(i, _)| *i).collect();
+			let mut cand: Vec<Vec<usize>> = writes.iter().map(|i| vec![*i]).collect();
+			for i in reads.iter() {
+				cand.push(vec![*i]);
+			}
+			for _ in 0..6 {
+				if !removes.is_empty() {
+					let mut v = Vec::new();
+					for r in removes.iter() {
+						if rng.below(3) == 0 {
+							v.push(*r);
+						}
+					}
+					cand.push(v);
+				}
+			}
+			for _ in 0..6 {
+				let mut v = Vec::new();
+				for _ in 0..(2 + rng.below(3)) {
+					if !all_attempts.is_empty() {
+						v.push(all_attempts[rng.below(all_attempts.len() as u64) as usize].0);
+					}
+				}
+				// removes fail together with one write: the seeded pattern "write fails, removes succeed" is the single-write script
+				cand.push(v);
+			}
+			while cand.len() > n_scripts {
+				let j = rng.below(cand.len() as u64) as usize;
+				cand.swap_remove(j);
+			}
+			scripts.extend(cand);
+		}
+		// recovery from the durable state; and from the state in which no lazy removal took effect
+		let mut recs = Vec::new();
+		let mut ok_all = true;
+		for mode in 0..2 {
+			let st2 = RecStore::new(None);
+			if mode == 0 {
+				*st2.map.lock().unwrap() = st.map.lock().unwrap().clone();
+			} else {
+				let mut m = st2.map.lock().unwrap();
+				for e in st.applied.lock().unwrap().iter() {
+					match e {
+						Entry::Write(k, v) => {
+							m.insert(k.clone(), v.clone());
+						},
+						Entry::Remove(k, lazy) => {
+							if !*lazy {
+								m.remove(k);
+							}
+						},
+						_ => {},
+					}
+				}
+			}
+			let p2 = MonitorUpdatingPersister::new(&st2, &cfg.logger, mp, keys, keys, &cfg.tx_broadcaster, &cfg.fee_estimator);
+			let res = panic::catch_unwind(AssertUnwindSafe(|| p2.read_all_channel_monitors_with_updates()));
+			let r = match res {
+				Err(e) => format!("PANIC:{}", panic_msg(e).replace(' ', "_")),
+				Ok(Err(e)) => format!("ERR:{}", format!("{}", e).replace(' ', "_")),
+				Ok(Ok(v)) => {
+					if v.is_empty() {
+						if reported.is_some() { ok_all = false; }
+						"none".to_string()
+					} else if v.len() > 1 {
+						ok_all = false;
+						format!("many{}", v.len())
+					} else {
+						let id = v[0].1.get_latest_update_id();
+						let mut eq = false;
+						let mut same_tip = false;
+						for (cid, bytes, nm) in call_end.iter() {
+							if *cid == id && !nm.starts_with('C') && !bytes.is_empty() {
+								if let Some((bb2, m2)) = read_monitor(bytes, keys) {
+									if bb2 == v[0].0 {
+										same_tip = true;
+										if m2 == v[0].1 { eq = true; break; }
+									}
+								}
+							}
+						}
+						if reported.map(|r| id < r).unwrap_or(false) || (same_tip && !eq) {
+							ok_all = false;
+						}
+						format!("{}{}", id, if eq { "=" } else if same_tip { "!" } else { "~" })
+					}
+				},
+			};
+			if r.starts_with("PANIC") || r.starts_with("ERR") {
+				ok_all = false;
+			}
+			recs.push(r);
+		}
+		let nr = st.needed_removed.lock().unwrap().clone();
+		if !nr.is_empty() {
+			ok_all = false;
+		}
+		println!(
+			"R fault mp={} sid={} fails={} stop={} reported={} rec={} needed_removed=[{}] ok={}",
+			mp, si, script.iter().map(|x| x.to_string()).collect::<Vec<_>>().join(","),
+			stop.map(|x| x.to_string()).unwrap_or("-".to_string()),
+			reported.map(|x| x.to_string()).unwrap_or("-".to_string()),
+			recs.join("/"), nr.join(","), if ok_all { 1 } else { 0 }
+		);
+		println!("R fattempts mp={} sid={} {}", mp, si, per_call.join(" | "));
+		si += 1;
+	}
 }
 
 // ---------------------------------------------------------------- H1: asynchronous persister
@@ -684,7 +955,8 @@ fn main() {
 			let mp: u64 = args[3].parse().unwrap();
 			let n_pay: usize = args[4].parse().unwrap();
 			let max_crash: usize = args[5].parse().unwrap();
-			let r = panic::catch_unwind(|| run_sync(seed, mp, n_pay, max_crash));
+			let n_faults: usize = args.get(6).and_then(|s| s.parse().ok()).unwrap_or(0);
+			let r = panic::catch_unwind(|| run_sync(seed, mp, n_pay, max_crash, n_faults));
 			if let Err(e) = r {
 				println!("R harness-panic mp={} {}", mp, panic_msg(e).replace('\n', " "));
 			}
